@@ -45,6 +45,29 @@ def nullable_pass(res, rule_prefix="R-NULLABLE", tus=None):
     return out, producers, clr, rounds
 
 
+def zero_counts(unit):
+    """per function of the TU's own file: ({scalar mjData member zeroed by a literal: line}, callee names, line)"""
+    from .. import cir as _cir
+    out = {}
+    for name, fn in unit.funcs.items():
+        if (fn.get("file") or unit.tu) != unit.tu:
+            continue
+        zs = {}
+        for n in _cir.walk(fn):
+            if n.get("k") == "BinaryOperator" and n.get("op") == "=":
+                l = _cir.strip(_cir.kids(n)[0])
+                v = _cir.strip(_cir.kids(n)[1])
+                while v is not None and v.get("k") == "BinaryOperator" and v.get("op") == "=":
+                    v = _cir.strip(_cir.kids(v)[1])
+                if l is not None and l.get("k") == "MemberExpr" and l.get("arrow") and v is not None and \
+                        v.get("k") == "IntegerLiteral" and str(v.get("v")) == "0" and "*" not in (l.get("t") or "") and \
+                        "mjData" in ((_cir.strip(_cir.kids(l)[0]) or {}).get("t") or ""):
+                    zs[l.get("n")] = n.get("line")
+        if zs:
+            out[name] = (zs, sorted({_cir.callee(c) for c in _cir.calls(fn) if _cir.callee(c)}), fn.get("line"))
+    return out
+
+
 def run(res, tier):
     out, producers, clr, rounds = nullable_pass(res)
     r1 = res.rule("R-NULLABLE", "every produced arena pointer is tested (that value) before any use; never used "
@@ -138,6 +161,26 @@ def run(res, tier):
             res.bad("R-CLEAR-COUNTS", f"mj_clearEfc:{cnt}", ce.get("file") or "src/engine/engine_memory.h", ce.get("line"),
                     f"mj_makeConstraint resets d->{cnt} together with nefc, but mj_clearEfc (run when the arena is exhausted) "
                     f"leaves it: later stages loop over the cleared efc arrays with a stale count")
+    # every other function of the engine that zeroes nefc must leave the same consistent "no constraints" state: all the counters
+    # mj_makeConstraint resets (by itself or by calling mj_clearEfc).  Zeroing nefc alone leaves ne/nf/nl and the contacts'
+    # efc_address pointing into rows that the solver and the sensors no longer see.
+    per_tu = engine.map_tus("sa.props.c20", "zero_counts", engine.engine_tus())
+    need = set(a)
+    nz = 0
+    for tu, fns in sorted(per_tu.items()):
+        for fname, (zs, calls, line) in sorted(fns.items()):
+            if "nefc" not in zs or fname in ("mj_makeConstraint", "mj_clearEfc"):
+                continue
+            nz += 1
+            have = set(zs) | (set(b) if "mj_clearEfc" in calls else set())
+            missing = sorted(need - have)
+            if missing:
+                res.bad("R-CLEAR-COUNTS", f"{fname}:nefc", tu, zs["nefc"],
+                        f"{fname} sets d->nefc = 0 but leaves {missing} (mj_makeConstraint resets them together and mj_clearEfc clears "
+                        f"them together): the constraint rows disappear for the solver while the contacts still carry their "
+                        f"efc_address and ne/nf/nl still count them")
+            else:
+                res.ok("R-CLEAR-COUNTS", f"{fname}:nefc", None)
     # the arena allocator itself never hands out memory beyond narena - pstack (shared with C19)
     from . import c19 as _c19
     res.rule("R-ARENA-GUARD", "mj_arenaAllocByte tests exactly the amount it consumes against narena - pstack before advancing", floor=1)
